@@ -107,7 +107,8 @@ for n, t in ((2, "thorough"), (3, "thorough")):
 
 CMP = ("tonic/src/codec/compression.rs", "tonic/codec_compression.rs")
 UW_NAME = [("http::header::name::", 24), ("HdrName", 24), ("parse_hdr", 24)]
-H("cmp_enabled_set", ["C05"], "comp_vb", *CMP, cap_s=3600, tier="thorough", optional=True,
+H("cmp_enabled_set", ["C05"], "comp_vb", *CMP, cap_s=3600, mem_gb=24, tier="thorough", optional=True, unwind=6,
+  unwindset=UW_MAPS + [("verif_codec_compression", 34), ("http::HeaderValue", 30), ("header::value", 30), ("function memcmp", 30)],
   obligation="N3: EnabledCompressionEncodings after any <=4 enable() calls: is_enabled/is_empty match the history; the accept header "
              "value is exactly the enabled names in order + 'identity'; pop removes the last",
   functions=["EnabledCompressionEncodings::{enable,is_enabled,is_empty,pop,into_accept_encoding_header_value}"],
@@ -138,10 +139,10 @@ for nm, b, t, cap in (("1", "all 1-byte header-legal values", "quick", 600), ("2
       functions=["tonic::transport::service::grpc_timeout::try_parse_grpc_timeout", "http::HeaderMap::{insert,get(&str)}"],
       bounds="grpc-timeout value: " + b,
       may_be_uncovered=(["well-formed value parsed"] if nm == "1" else []) + (["well-formed value parsed", "malformed value ignored"] if nm == "absent" else []))
-H("gt_select_min", ["C09"], "transport", *GT, cap_s=3600, tier="thorough", optional=True, stubs=[HTTPH, "tokio::time::sleep stubbed: asserts its argument == min(header, configured) and ends the path (no runtime)"],
+H("gt_select_min", ["C09"], "transport", *GT, cap_s=3600, mem_gb=26, tier="thorough", optional=True, stubs=[HTTPH, "tokio::time::sleep stubbed: asserts its argument == min(header, configured) and ends the path (no runtime)"],
   obligation="G4: GrpcTimeout::call arms the timer with min(caller grpc-timeout, configured timeout); no timer when both are absent",
   functions=["GrpcTimeout::call", "try_parse_grpc_timeout"],
-  bounds="caller timeout absent / '<digit>S' / '<digit>m' / malformed '<digit>x'; configured timeout: any Option<Duration>",
+  bounds="caller timeout absent / '<digit>S' / '<digit>m' / malformed '<digit>x'; configured timeout: None or any whole milliseconds < 65536",
   outside=["the race between the inner future and the Sleep in ResponseFuture::poll (needs a tokio timer)"])
 
 RC = ("tonic/src/transport/channel/service/reconnect.rs", "tonic/reconnect.rs")
@@ -193,7 +194,7 @@ H("web_trailers_frame_repeated", ["C16"], "web_vb", *WEB, cap_s=3600, tier="thor
              "(repeated names included)",
   functions=["tonic_web::call::make_trailers_frame", "tonic_web::call::encode_trailers"],
   bounds="3 trailers over 2 names (one repeated), 1-byte visible-ASCII symbolic values")
-H("web_decode_trailers_colon_repeat", ["C17"], "web_vb", *WEB, cap_s=3600, tier="thorough", optional=True, stubs=[HTTPH],
+H("web_decode_trailers_colon_repeat", ["C17"], "web_vb", *WEB, cap_s=3600, mem_gb=24, tier="thorough", optional=True, stubs=[HTTPH],
   obligation="U2: decode_trailers_frame: every name with its full value: values containing ':' survive, repeated names keep all values",
   functions=["tonic_web::call::decode_trailers_frame"],
   bounds="frame with two lines for the same name; values of 3 and 1 symbolic visible-ASCII bytes (':' and inner ' ' included)")
@@ -241,7 +242,7 @@ for nm, b in (("ic_no_headers", "empty header map"), ("ic_reserved_header", "one
       outside=["extensions, header maps with more than 2 entries, custom (non-standard) header names on this path"])
 
 for n, t, cap in ((0, "thorough", 3600), (5, "thorough", 3600), (6, "thorough", 3600)):
-    H("pn_glue_%d" % n, ["C07"], "core_vb", *DEC, tier=t, cap_s=cap, mem_gb=24, optional=True, unwindset=UW_MAPS + [("Streaming<", 5)],
+    H("pn_glue_%d" % n, ["C07"], "core_vb", *DEC, tier=t, cap_s=cap, mem_gb=44, optional=True, unwindset=UW_MAPS + [("Streaming<", 5)],
       extra_cbmc=("--no-pointer-check", "--no-bounds-check"),
       assumes=["pn_glue_*: CBMC's generic pointer/bounds checks are switched off for this harness only (formula size); its assertions, "
                "unwinding assertions and panics stay on"],
@@ -271,7 +272,7 @@ for nm, b in (("subsecond_units", "secs < 131_072, any nanos (units n/u/m and th
       bounds="all Durations with " + b,
       outside=["durations above 99_999_999 hours (documented expect() panic)"])
 
-H("st_add_header_msg1", ["C04"], "core", *ST, cap_s=3600, tier="thorough", optional=True, stubs=[HTTPH],
+H("st_add_header_msg1", ["C04"], "core_vb", *ST, cap_s=3600, mem_gb=24, tier="thorough", optional=True, stubs=[HTTPH],
   obligation="H2 (write side): Status::to_header_map for any code and any one-character ASCII message: grpc-status = decimal code, "
              "grpc-message = the character itself or %XX exactly for the gRPC escape set (controls, space, \" # % < > ` ? { }), no details header",
   functions=["Status::to_header_map", "Status::add_header", "percent_encoding::percent_encode(ENCODING_SET)"],
@@ -319,6 +320,18 @@ H("twin_dec_hdr_false", ["C06", "C07", "C01", "C05"], "core", *DEC, tier="thorou
 H("twin_rc_false", ["C14"], "transport", *RC, tier="thorough", cap_s=900, expect="fail", unwindset=UW_MAPS + [("Reconnect<", 8)],
   obligation="vacuity guard: a deliberately false assertion after the Reconnect step must be reported violated",
   functions=["Reconnect::poll_ready"], bounds="k=2")
+
+WSV = ("tonic-web/src/service.rs", "web/service.rs")
+for nm, b in (("grpc_web", "application/grpc-web, no Accept"), ("grpc_web_proto", "application/grpc-web+proto, Accept: text+proto"),
+              ("grpc_web_text", "application/grpc-web-text, Accept: text"), ("grpc_web_text_proto", "application/grpc-web-text+proto, Accept: +proto"),
+              ("grpc", "application/grpc"), ("json", "application/json"), ("none", "no content-type")):
+    H("web_kind_" + nm, ["C16"], "web", *WSV, cap_s=600, stubs=[HTTPH],
+      obligation="R3: RequestKind::new on a real header map: grpc-web iff the content-type is one of the four grpc-web types; body text iff "
+                 "a -text type; response text iff Accept is a -text type; otherwise Other(version) (HTTP/2 passes through, HTTP/1 is 400, "
+                 "non-POST grpc-web is 405 by the match in GrpcWebService::call)",
+      functions=["tonic_web::service::RequestKind::new", "content_types::is_grpc_web", "Encoding::{from_content_type,from_accept}"],
+      bounds="content-type/accept: " + b + "; method: 5 standard methods (symbolic); version: 4 (symbolic)",
+      may_be_uncovered=(["other over HTTP/2 (pass through)", "other over HTTP/1 (400)"] if nm.startswith("grpc_web") else ["POST grpc-web", "non-POST grpc-web (405)"]))
 
 
 def select(pid, tier, seed=0):
